@@ -110,6 +110,11 @@ CheckRem(a) ==
   UNION { IF IsZeroTF(b) THEN {} ELSE
           LET A == <<TFA(a), TFA(b)>> IN Ob("rem", A, ARemTT(a, b))
           : b \in BSet }
+  \* the f64-divisor and f64-dividend forms (their own bodies in the source)
+  \cup UNION { IF IsZeroW(f) THEN {} ELSE
+               Ob("rem", <<TFA(a), FA(f)>>, ARemTF(a, f))
+               \cup (UNION { IF IsZeroTF(b) THEN {} ELSE Ob("rem", <<FA(f), TFA(b)>>, ARemFT(f, b)) : b \in {a, ANeg(a)} })
+               : f \in BWords }
 CheckEuclid(a) ==
   UNION { IF IsZeroTF(b) THEN {} ELSE
           UNION { LET A == <<TFA(x), TFA(b)>> IN
@@ -284,6 +289,6 @@ Spec == Init /\ [][Next]_vars
 NoBad == bad = {}
 \* the run is not vacuous: the slice has items and the sets are inhabited
 Sizes == <<Len(ItemSeq), IF MODE \in {"addsub", "mul", "div", "rem", "cmp", "euclid"} THEN Cardinality(BSet) ELSE 0,
-           IF MODE \in {"addsub", "mul", "div", "new"} THEN Cardinality(BWords) ELSE 0>>
+           IF MODE \in {"addsub", "mul", "div", "new", "rem"} THEN Cardinality(BWords) ELSE 0>>
 Report == PrintT(<<"MC_SIZES", MODE, Sizes>>) /\ Len(ItemSeq) > 0
 =============================================================================
